@@ -301,7 +301,7 @@ fn run_pair(rep: &mut Report, seed: u64, cfg: &CaseCfg, replay: vcommon::Value) 
             .await;
             let _ = r;
         };
-        tokio::time::timeout(std::time::Duration::from_secs(3600), fut).await.is_ok()
+        crate::transport::leak_on_timeout(3600, fut).await.is_some()
     });
     if !finished {
         std::mem::forget(rt);
@@ -428,7 +428,7 @@ fn run_flood(rep: &mut Report, seed: u64, rng: &mut StdRng, replay: vcommon::Val
             .await;
             r.unwrap_or(0)
         };
-        tokio::time::timeout(std::time::Duration::from_secs(3600), fut).await
+        crate::transport::leak_on_timeout(3600, fut).await
     });
     let (written, pulled) = stats.b2a();
     let hs = res.unwrap_or(0);
